@@ -150,6 +150,10 @@ macro_rules! convert_float_to_uint {
                     fn into_stimulus(self) -> $target {
                         let max = $target::max_intensity() as $temporary;
                         let scaled = (self as $temporary * max).min(max).max(0.0);
+                        if scaled >= f64::from_bits(C52) {
+                            // Already an integer and too large for the rounding below.
+                            return scaled as $target;
+                        }
                         let f = scaled + f64::from_bits(C52);
                         (f.to_bits().saturating_sub(C52)) as  $target
                     }
@@ -169,6 +173,10 @@ macro_rules! convert_double_to_uint {
                 fn into_stimulus(self) -> $direct_target {
                     let max = $direct_target::max_intensity() as $double;
                     let scaled = (self * max).min(max).max(0.0);
+                    if scaled >= f64::from_bits(C52) {
+                        // Already an integer and too large for the rounding below.
+                        return scaled as $direct_target;
+                    }
                     let f = scaled + f64::from_bits(C52);
                     (f.to_bits().saturating_sub(C52)) as $direct_target
                 }
